@@ -133,3 +133,73 @@ UNITS = [
 for u in UNITS:
     if u['name'] == 'CD.roundtrip[void const*]':
         u['prelude'] = u['prelude'].replace('#define BUFSZ 16', '#define BUFSZ 16\ntypedef void const* voidcp;')
+
+# ------------------------------------------------------------------------------------------ std/Vector.h: Codec<std::vector<uint32_t>> (arithmetic arm)
+VH = 'quill/std/Vector.h'
+VEC_PRE = BASE + r'''
+#define BUFSZ 64
+#define MAXN 8
+typedef uint32_t T;
+typedef struct VecIn { T const* d; size_t n; } VecIn;              /* std::vector<T>: data + size */
+typedef struct VecOut { T a[MAXN]; size_t n; size_t g_reserved; } VecOut;   /* the decoded vector */
+static inline size_t VIN_size(VecIn const* v) { return v->n; }
+static inline T const* VIN_data(VecIn const* v) { return v->d; }
+static inline void VOUT_reserve(VecOut* v, size_t n) { v->g_reserved = n; }
+static inline void VOUT_emplace_back(VecOut* v, T x) { __CPROVER_assert(v->n < MAXN, "harness: decoded vector within the bound"); v->a[v->n] = x; v->n++; }
+'''
+SZ = 'using Arg = size_t;'
+EL = 'using Arg = uint32_t;'
+
+
+def codec_funcs_for(inst, prefix, argt):
+    fs = funcs(inst, argt, argt)
+    out = []
+    for f in fs:
+        g = dict(f)
+        g['cfun'] = f['cfun'].replace('CD_', prefix)
+        g['sig'] = f['sig'].replace('CD_', prefix)
+        g['pre_rules'] = list(f.get('pre_rules', [])) + [(r'\bArg\b', argt)]
+        out.append(g)
+    return out
+
+
+VRULES = [(r'\bdetail::', ''), (r'\barg\b', '(*arg_p)'), (r'\bbuffer\b', '(*buffer_p)'), (r'\bconditional_arg_size_cache_index\b', '(*idx_p)'), (r'\bconditional_arg_size_cache\b(?!_)', '(*cache_p)'),
+          (r'Codec<size_t>::encode\(\(\*buffer_p\),\s*\(\*cache_p\),\s*\(\*idx_p\),\s*(.*?)\)\s*;', r'{ size_t const n_tmp = \1; CDS_encode(buffer_p, cache_p, idx_p, &n_tmp); }'),
+          (r'Codec<size_t>::decode_arg\(\(\*buffer_p\)\)', 'CDS_decode_arg(buffer_p)'), (r'Codec<T>::decode_arg\(\(\*buffer_p\)\)', 'CDE_decode_arg(buffer_p)'),
+          (r'\bstd::memcpy\(', 'MEMCPY0(')]
+vec_funcs = codec_funcs_for(SZ, 'CDS_', 'size_t') + codec_funcs_for(EL, 'CDE_', 'uint32_t')[2:] + [
+    dict(src=dict(header=VH, cls='Codec', cls_re=r'struct\s+Codec<std::vector<T,\s*Allocator>>', name='compute_encoded_size'), cfun='CDV_compute_encoded_size', sig='size_t CDV_compute_encoded_size(IV* cache_p, VecIn const* arg_p)',
+         constexpr_gxx='using T = uint32_t; using Allocator = std::allocator<uint32_t>;', methods={'size': 'VIN_size', 'data': 'VIN_data'}, pre_rules=VRULES),
+    dict(src=dict(header=VH, cls='Codec', cls_re=r'struct\s+Codec<std::vector<T,\s*Allocator>>', name='encode'), cfun='CDV_encode', sig='void CDV_encode(unsigned char** buffer_p, IV* cache_p, uint32_t* idx_p, VecIn const* arg_p)',
+         constexpr_gxx='using T = uint32_t; using Allocator = std::allocator<uint32_t>;', methods={'size': 'VIN_size', 'data': 'VIN_data'}, pre_rules=VRULES),
+    dict(src=dict(header=VH, cls='Codec', cls_re=r'struct\s+Codec<std::vector<T,\s*Allocator>>', name='decode_arg'), cfun='CDV_decode_arg', sig='VecOut CDV_decode_arg(unsigned char** buffer_p)',
+         constexpr_gxx='using T = uint32_t; using Allocator = std::allocator<uint32_t>;', methods={'reserve': 'VOUT_reserve', 'emplace_back': 'VOUT_emplace_back'},
+         pre_rules=[r_ for r_ in VRULES if r_[0] != r'\barg\b'] + [(r'using\s+ReturnType\s*=[^;]*;', ''), (r'using\s+ReboundAllocator\s*=[^;]*;', ''), (r'std::vector<ReturnType,\s*ReboundAllocator>\s+arg\s*;', 'VecOut arg; arg.n = 0; arg.g_reserved = 0;')]),
+    dict(cfun='lem_roundtrip', text=r'''
+void lem_roundtrip(void)
+__CPROVER_assigns()
+__CPROVER_ensures(1 == 1)
+{
+  static unsigned char buf[BUFSZ]; static T src[MAXN];
+  IV cache; cache.n = 0;
+  VecIn argv; argv.d = src; size_t k; __CPROVER_assume(k <= MAXN); argv.n = k;
+  size_t const size = CDV_compute_encoded_size(&cache, &argv);
+  __CPROVER_assert(size == 8 + 4 * argv.n, "C04: reserved size is the specified encoded size (element count + elements)");
+  unsigned char* w = buf; uint32_t idx = 0;
+  CDV_encode(&w, &cache, &idx, &argv);
+  __CPROVER_assert((size_t)(w - buf) == size, "C04: bytes written by encode == bytes reserved by the size pass");
+  unsigned char* r = buf;
+  VecOut d = CDV_decode_arg(&r);
+  __CPROVER_assert(r == w, "C04: bytes consumed by decode == bytes written by encode");
+  size_t j; __CPROVER_assume(j < MAXN);
+  __CPROVER_assert(d.n == argv.n && (j < argv.n ==> d.a[j] == src[j]), "C04: the decoded vector equals the argument, element by element (deep copy)");
+}
+''')]
+vector_u32 = dict(
+    name='CD.roundtrip[std::vector<uint32_t>]', primary='C04', props={'C04'}, kind='L',
+    desc='quill/std/Vector.h Codec<std::vector<uint32_t>> (arithmetic arm, selected by g++) over the real bodies, with the real Codec<size_t> / Codec<uint32_t> bodies for the nested calls',
+    structs=[], prelude=VEC_PRE, enforce='lem_roundtrip', replace=[], funcs=vec_funcs, harness='  lem_roundtrip();',
+    cbmc=['--unwind', '10', '--unwinding-assertions'], bounded=dict(bound='vectors of at most 8 elements, every content', form='a'),
+    dropped=['allocator template parameter, rebind', 'reference parameters as pointers', 'the _WIN32 wide-string arm'], trusted=['memcpy (CBMC built-in)'],
+    assumes=['harness assume: vector length within the bound'], allow_assume=True, min_obligations=5)
+UNITS.append(vector_u32)
